@@ -295,7 +295,20 @@ def rename_jobs(root: str, only: Optional[str]) -> List[Tuple[str, str, str, str
             continue
         mod = importlib.import_module(f"djc_sa.rules.{pid}")
         _code, chk = run_guarded(pid, "quick", 0, lambda c: mod.run(c, proj), quiet=True, write=False)
-        for fk in sorted(chk.functions):
+        fks = set(chk.functions)
+        # plus every function of the modules the property is anchored in (properties.jsonl)
+        try:
+            ppath = os.path.join(os.path.dirname(os.path.dirname(os.path.abspath(__file__))), "properties.jsonl")
+            for line in open(ppath):
+                pr = json.loads(line)
+                if pr["id"] == pid:
+                    for rel in pr["anchors"]["files"]:
+                        mm = proj.by_rel.get(rel)
+                        if mm is not None:
+                            fks.update(f"{mm.name}:{q}" for q, _f in mm.funcs())
+        except OSError:
+            pass
+        for fk in sorted(fks):
             mn, q = fk.split(":")
             if mn not in proj.modules:
                 continue
